@@ -70,7 +70,8 @@ fn report(run: &Run, p: Prof, s: &str) {
 pub fn run(run: &Run) {
     run.set_rule(
         "Generator: (a) every Unicode scalar value c in the 9 contexts c, xc, Xc, cx, cX, U+01C5 c, c U+10400, behind 17 two-byte letters, behind 93 mixed-width characters + X (uncased / uppercase / \
-         titlecase / 4-byte neighbours before and after), (b) proptest strings from a case-heavy pool (upper, lower, titlecase, \
+         titlecase / 4-byte neighbours before and after), all ordered pairs of the ~1400 characters that have a lowercase mapping in 3 templates; every ASCII and cased-pool character at every alignment 0..=72; \
+         every scalar behind prefixes of 7..65 ASCII letters; (b) proptest strings from a case-heavy pool (upper, lower, titlecase, \
          Other_Uppercase, expanding mappings, Cherokee, Deseret, Adlam) mixed with general characters; through \
          Rules::case_mapping_rule of UsernameCaseMapped and Nickname. Oracle: concatenation of char::to_lowercase per character. \
          Non-trivial: the string contains a character that has a lowercase mapping different from itself and no is_uppercase \
@@ -113,6 +114,28 @@ pub fn run(run: &Run) {
             cp += n as u32;
         }
     });
+    // every scalar value behind ASCII prefixes whose length puts it on / next to 8, 16, 32 and 64-byte block boundaries
+    run.par("all_scalars_long_prefix", true, |tid, n, l| {
+        let pres: Vec<String> = [7usize, 8, 15, 16, 17, 31, 32, 33, 63, 64, 65].iter().map(|k| "a".repeat(*k)).collect();
+        let mut cp = tid as u32;
+        while cp < 0x110000 {
+            if let Some(c) = char::from_u32(cp) {
+                if cp % 8192 == 0 && run.stopped() {
+                    return;
+                }
+                for (i, pre) in pres.iter().enumerate() {
+                    let s = if i % 2 == 0 { format!("{pre}{c}") } else { format!("{pre}{c} z") };
+                    l.cases += 1;
+                    let p = profs[(cp as usize + i) % 2];
+                    if check(p, &s, l).is_err() {
+                        report(run, p, &s);
+                        return;
+                    }
+                }
+            }
+            cp += n as u32;
+        }
+    });
     super::pipe::stress(run, "alignment_and_runs", &super::pipe::PAYLOADS_USER, &|s, l| {
         for p in profs {
             if check(p, s, l).is_err() {
@@ -139,6 +162,33 @@ pub fn run(run: &Run) {
                             report(run, p, &s);
                             return;
                         }
+                    }
+                }
+            }
+        }
+    });
+    // all ordered pairs of characters that have a lowercase mapping (output-size estimates, growing/shrinking mappings)
+    run.par("all_pairs_of_cased_characters", true, |tid, n, l| {
+        let ca = &pools().cased_all;
+        for (i, a) in ca.iter().enumerate() {
+            if i % n != tid {
+                continue;
+            }
+            if run.stopped() {
+                return;
+            }
+            for b in ca.iter() {
+                for t in 0..3 {
+                    let s = match t {
+                        0 => format!("{a}{b}"),
+                        1 => format!("{a}{b}a"),
+                        _ => format!("x{a}{a}{b}"),
+                    };
+                    l.cases += 1;
+                    let p = profs[t % 2];
+                    if check(p, &s, l).is_err() {
+                        report(run, p, &s);
+                        return;
                     }
                 }
             }
